@@ -49,11 +49,12 @@ claim("C04", "proof",
       TIE, "Lean 4 simulation proof over a tagged-byte machine (flush relation) + exhaustive segmentation oracle", "§4 C04")
 
 claim("C09", "proof",
-      "Theorems for all n, all bounds: try_into_range (hence every engine's per-bound output: general, fast, bytes, and the spec's resolve) is "
-      "invariant under rewriting any subset of negative indexes -k to n+1-k; -1 is the last part, -n the first. Direct oracle: implementation on "
-      "B vs B' in every mode.",
-      TIE + " One known finding (line-at-a-time straddling range with fallback) is listed in KNOWN_FINDINGS.txt.",
-      "Lean 4 theorems (omega over Int) lifted through the output loops + metamorphic oracle", "§4 C09")
+      "Theorems (44): try_into_range / resolve are invariant under rewriting any subset of negative indexes -k to n+1-k; specRecord_mirror / specRun_mirror / specLines_mirror / "
+      "specBytes_mirror for every request (-g -p -t -s -j -r -m --json -c); transported to the engines for inputs whose records all have n parts: readAndCutStr_mirror, "
+      "readAndCutFast_mirror (crossing the early-stop boundary), readAndCutLines_mirror (crossing the two algorithms, on the C05 domain), readAndCutBytes_mirror. Direct oracle: "
+      "implementation on B vs B' in every mode.",
+      TIE + " One known finding (line-at-a-time straddling range with fallback) is listed in KNOWN_FINDINGS.txt; a decide example shows the unrestricted -l mirror statement is false there.",
+      "Lean 4 theorems (omega over Int, spec law + transport through the refinement theorems) + metamorphic oracle", "§4 C09")
 claim("C10", "proof",
       "Theorems for all inputs and options: scratch buffers never influence a record (general path and fast lane); records(A‖B) = records(A) ++ records(B) when A "
       "ends with EOL; run(A‖B) = run(A) then run(B), and = run(A) when A fails — for read_and_cut_str (incl. -c, --json), the fast lane, and -M under EVERY "
@@ -62,35 +63,36 @@ claim("C10", "proof",
       TIE, "Lean 4 theorems (induction over records, Run.seq algebra, state-reset lemma) + metamorphic oracle", "§4 C10")
 
 claim("C13", "proof",
-      "Theorems, one per engine and per branch (general, fast, bytes, -M, -l line-at-a-time, range expansion, complement): resolvable ⇒ data and "
-      "never a fallback; else own fallback verbatim; else generic; else the run fails; unresolvable ⇔ the specification cannot resolve. Direct "
-      "oracle: implementation vs executed specification in every mode, any subset of bounds unresolvable.",
+      "Theorems (49): emit_rule (piece iff resolvable, else own fallback, else generic, else fail), piece_exact (a resolved bound is built from its own fields only), resolve_none_iff "
+      "(unresolvable ⇔ an index out of ±n or crossing sides), emit_never_silent; transported: readAndCutStr_never_silent, readAndCutFast_never_silent, cutLines/fwd/readAndCutLines_never_silent "
+      "(both -l algorithms), readAndCutBytes_never_silent, stream_never_silent (-M, admissible inputs), for -m/--json/-c too; per-engine branch lemmas. Direct oracle: implementation vs executed "
+      "specification in every mode, any subset of bounds unresolvable, final record with/without EOL.",
       TIE + " Two known findings (ranges straddling the end with a fallback, in -l line-at-a-time and -M) are listed in KNOWN_FINDINGS.txt.",
-      "Lean 4 theorems (decision logic stated outright) + executed specification as oracle", "§4 C13")
+      "Lean 4 theorems (spec laws + transport through the refinement theorems) + executed specification as oracle", "§4 C13")
 claim("C15", "proof",
-      "Theorems: UserBounds::complement equals the specification's complementBound for every resolvable bound and n (1…lo-1 then hi+1…n), order "
-      "kept (flatMap), all-covering lists fail. Direct oracle: -m B vs the rewritten list, on the implementation, in -f/--json/-l with -j/-r.",
-      TIE, "Lean 4 theorems (arithmetic of ranges) + metamorphic oracle", "§4 C15")
-
+      "Theorems (24): complement_eq_spec (UserBounds::complement = 1…lo-1 then hi+1…n); specRecord_complement: -m B is the request with B rewritten in place (order kept), and fails iff "
+      "every bound covers everything (complement_empty_iff); transported: readAndCutStr_complement (every literal delimiter, -g -p -t -s -j -r, inputs whose records have n fields), "
+      "readAndCutStr_complement_empty, readAndCutLines_complement(_plain). Direct oracle: -m B vs the rewritten list, on the implementation, in -f/--json/-l with -j/-r.",
+      TIE, "Lean 4 theorems (spec law + transport through the refinement theorems) + metamorphic oracle", "§4 C15")
 claim("C06", "proof",
       "Theorem readAndCutBytes_eq_spec: for EVERY byte string and every bounds list with non-zero indexes the model of read_and_cut_bytes equals the "
       "specification (fillers verbatim, each bound = data[lo-1..hi] or its fallback rule, nothing appended, empty input ⇒ empty output), and never "
       "panics. Direct oracle: implementation vs executed specification, exhaustive small alphabets incl. NUL/LF/0xFF + large random inputs.",
       TIE, "Lean 4 refinement theorem (engine = abstract spec) + differential correspondence", "§4 C06")
 claim("C07", "proof",
-      "Theorems (31): utf8 segmentation loses/splits nothing (flatten), every piece is exactly one well-formed scalar of 1-4 bytes, any selection/"
-      "reordering of characters of valid text is valid UTF-8 decoding to exactly those characters, fuel adequacy; engine link: in character mode the "
-      "field vector of cut_str is exactly the list of scalar ranges (cutStrCore_chars), slices of ranges never split a character and never panic. "
-      "Direct oracle: implementation (with the real regex \\b|\\B) vs executed spec; output decodes as UTF-8.",
+      "Theorems (57): chars_run_eq_spec(_of_parsed): for every VALID UTF-8 input, every bounds argument the parser accepts, -z, -m, format text, fallbacks, the model of "
+      "character mode equals the per-record specification over `utf8Chars` (scalar values as parts) — output and status; chars_output_valid: the output is valid "
+      "UTF-8 whenever format text and fallbacks are; utf8 segmentation loses/splits nothing, every piece is one well-formed scalar, the engine's field vector is exactly "
+      "the list of scalar ranges. Direct oracle: implementation (with the real regex \\b|\\B) vs executed spec in-process AND the real binary end to end on -c command lines.",
       TIE + " The regex engine's behaviour for \\b|\\B (a match at every scalar boundary of valid UTF-8) is modelled and validated by the correspondence, not proved.",
-      "Lean 4 theorems (induction over the UTF-8 decoder, refinement of the character-mode field vector) + differential correspondence", "§4 C07")
+      "Lean 4 refinement theorem (character-mode engine = abstract spec over the UTF-8 decoder) + differential correspondence incl. CLI round trip", "§4 C07")
 claim("C08", "proof",
-      "Theorems (32): an independent strict RFC 8259 reader for arrays of strings is defined in Lean; jsonDecodeString (jsonString s ++ rest) = (s, rest) "
-      "for EVERY byte string; json_array_roundtrip for every list of parts; no raw control byte in the output (one record = one line); shape of the "
-      "engine's output loop under --json (emitRecord_json_decodes). Direct oracle: every output line parsed by python's strict json and compared "
-      "element-wise with an independent selection.",
+      "Theorems (51): json_run_eq_spec(_of_parsed): with --json the general engine equals the per-record specification for EVERY line (also non-UTF-8: both fail at the same "
+      "element), every literal delimiter and -g -p -t -s -m; json_record_decodes: the output line decodes, with an independent strict RFC 8259 reader defined in Lean, to exactly "
+      "the selected part texts — one element per field of a range, one per fallback; jsonDecodeString (jsonString s ++ rest) = (s, rest) for every byte string; no raw control "
+      "byte in a line; same for -c (chars_json_record_eq_spec). Direct oracle: every output line parsed by python's strict json and compared element-wise with an independent selection.",
       TIE + " serde_json's escaping table is modelled (jsonEscapeByte) and validated by the correspondence.",
-      "Lean 4 round-trip theorem (encoder/decoder, induction + case split per escape class) + independent JSON reader oracle", "§4 C08")
+      "Lean 4 refinement + round-trip theorems (encoder/decoder, unpack = expand) + independent JSON reader oracle", "§4 C08")
 claim("C19", "proof",
       "Theorems over the whole option-set space (case analysis, not enumeration): decision f = reject ⇔ conflict f (the statement's list, clause by "
       "clause); accepted ⇔ no conflict; failFirst ⇔ -e with -j/-p and neither -r nor --json; implied join; engine choice; -z/--fallback-oob never "
@@ -132,13 +134,14 @@ claim("C18", "proof",
       TIE, "Lean 4 language-recognition theorem (scanner with look-ahead = lexer+parser, simulation proof) + bounded-exhaustive correspondence", "§4 C18")
 
 claim("C16", "proof",
-      "Theorems for ANY matcher (the engine only looks at the match list): fields are exactly the gaps between successive matches, one more field than "
-      "matches, -r copies the replacement literally for every match, -t touches only a match at the chosen end, after -p the printed slices are not matched "
-      "again (see evidence for the list). Direct oracle: the reading of the statement executed over match positions of an INDEPENDENT engine (python re) on "
-      "a regex family; the real engine's match positions for RE and (RE)+ are compared with python's and with the Lean matcher on every record.",
-      TIE + " Partial by nature: the regex engine is outside the model (an executable leftmost-first matcher for the family stands in for it and is validated "
-      "case by case); anchors, look-around, empty matches and classes with ranges are outside the family.",
-      "Lean 4 theorems parametric in the matcher + oracle over an independent regex engine + matcher correspondence", "§4 C16")
+      "Theorems (23) for ANY matcher satisfying the find_iter contract (sorted, non-overlapping, in range): regexCut_eq_spec / regexRun_eq_spec — without -r/-p the engine equals a "
+      "specification over the match lists (fields = gaps between matches, -g = gaps between greedy matches, separators kept verbatim, -t removes only the greedy match touching the chosen "
+      "end, -s, -m, fallbacks); with -r R (no -g) under slice-stability of the matcher the separators are rendered as R verbatim; -p -r R equals the LITERAL engine on the rewritten record "
+      "(hence the literal refinement theorem). The executable Lean matcher for the family is proved to satisfy the contract. Direct oracle: the statement executed over match positions of "
+      "an INDEPENDENT engine (python re), in-process and on the real binary; the real engine's match positions compared with python's and the Lean matcher's on every record.",
+      TIE + " Partial by nature: the regex crate is outside the model; slice-stability and 'greedy = runs of normal matches' are validated by testing, not proved; -g with -r is unproved (tested); "
+      "anchors, look-around, empty matches, class ranges are outside the family.",
+      "Lean 4 refinement theorems parametric in the matcher + oracle over an independent regex engine + matcher correspondence", "§4 C16")
 claim("C17", "other",
       "Partial. Theorems bound what the MODEL retains: nothing of a chunk crosses a chunk boundary in the -M machine (retained_zero_at_chunk_end), the pending "
       "piece grows by at most the byte read. The real allocator / Vec growth / BufReader are MEASURED: counting global allocator in the harness, synthetic "
